@@ -36,14 +36,19 @@ class TlcResult:
 _workdir = None
 
 
+_wd_lock = threading.Lock()
+
+
 def workdir():
     """scratch copy of the specification directory"""
     global _workdir
-    if _workdir is None:
-        _workdir = os.path.join(scratch(), "spec")
-        os.makedirs(_workdir, exist_ok=True)
-        for f in glob.glob(os.path.join(SPEC, "*.tla")) + glob.glob(os.path.join(SPEC, "*.cfg")):
-            shutil.copy(f, _workdir)
+    with _wd_lock:
+        if _workdir is None:
+            d = os.path.join(scratch(), "spec")
+            os.makedirs(d, exist_ok=True)
+            for f in glob.glob(os.path.join(SPEC, "*.tla")) + glob.glob(os.path.join(SPEC, "*.cfg")):
+                shutil.copy(f, d)
+            _workdir = d
     return _workdir
 
 
@@ -53,6 +58,9 @@ _run_id = [0]
 def fresh_workdir(tag):
     """a private copy of the specification directory (for runs that generate modules)"""
     src = workdir()
+    with _lock:
+        _run_id[0] += 1
+        tag = f"{tag}_{_run_id[0]}"
     d = os.path.join(scratch(), f"spec_{tag}")
     os.makedirs(d, exist_ok=True)
     for f in glob.glob(os.path.join(src, "*.tla")) + glob.glob(os.path.join(src, "*.cfg")):
